@@ -171,6 +171,10 @@ let firstn_tr n l =
 
 let bigs b = if b then "1" else "0"
 
+(* the <ebs> field is one value or a sequence a,b,.. of SetLimits calls: what must be in force is the
+   declared limit of the LAST value *)
+let ebs_of (s : string) : coq_N = n_of_string (Stdlib.List.hd (Stdlib.List.rev (split_on ',' s)))
+
 (* verdict of one ReadMessage without the reader position *)
 let verdict (r : WireFrame.frame_res) : string =
   match r with
@@ -182,10 +186,10 @@ let verdict (r : WireFrame.frame_res) : string =
 let model (input : string) : string =
   match split_on ' ' input with
   | ["L"; pver; ebs; cmd] ->
-    let pver = n_of_string pver and ebs = n_of_string ebs in
+    let pver = n_of_string pver and ebs = ebs_of ebs in
     Printf.sprintf "%s %s" (dec_of_n (WireMsg.max_payload (kind_of_string cmd) pver ebs)) (dec_of_n (WireMsg.max_message_payload ebs))
   | ["P"; pver; ebs; ms] ->
-    let pver = n_of_string pver and ebs = n_of_string ebs in
+    let pver = n_of_string pver and ebs = ebs_of ebs in
     let mmp = WireMsg.max_message_payload ebs in
     let m = parse_msg ms in
     (match WireMsg.enc_msg pver m with
@@ -196,7 +200,7 @@ let model (input : string) : string =
         | WireBase.Ok (m', rest) -> Printf.sprintf "%s|%s rem=%d" (show_bytes payload) (summarize m') (llen rest)))
   | ["F"; pver; ebs; net; ms] | ["C"; pver; ebs; net; ms] ->
     (* "C": the same framed round trip, executed by the harness while 15 other goroutines use the codec *)
-    let pver = n_of_string pver and ebs = n_of_string ebs and net = n_of_string net in
+    let pver = n_of_string pver and ebs = ebs_of ebs and net = n_of_string net in
     let m = parse_msg ms in
     (match WireFrame.write_message pver net ebs m with
      | WireBase.Err e -> err_name e ^ "|-"
@@ -205,7 +209,7 @@ let model (input : string) : string =
         | WireFrame.FErr (e, _) -> show_bytes frame ^ "|" ^ err_name e
         | WireFrame.FOk (m', _, rest) -> Printf.sprintf "%s|%s pos=%d" (show_bytes frame) (summarize m') (llen frame - llen rest)))
   | "D" :: pver :: ebs :: cmd :: tl ->
-    let pver = n_of_string pver and ebs = n_of_string ebs in
+    let pver = n_of_string pver and ebs = ebs_of ebs in
     let mmp = WireMsg.max_message_payload ebs in
     let payload = bytes_of_hex (match tl with [h] -> h | _ -> "") in
     let k = kind_of_string cmd in
@@ -223,7 +227,7 @@ let model (input : string) : string =
           Printf.sprintf "OK %s rem=%d re=%s" (summarize m) rem re in
     body ^ " big=" ^ bigs big
   | "R" :: pver :: ebs :: net :: tl ->
-    let pver = n_of_string pver and ebs = n_of_string ebs and net = n_of_string net in
+    let pver = n_of_string pver and ebs = ebs_of ebs and net = n_of_string net in
     let stream = bytes_of_hex (match tl with [h] -> h | _ -> "") in
     let total = llen stream in
     let big = WireSpec.big_flag (WireFrame.alloc_frame pver net ebs stream) (WireFrame.alloc_limit pver ebs stream) in
@@ -239,7 +243,7 @@ let model (input : string) : string =
         Printf.sprintf "OK %s pos=%d re=%s" (summarize m) pos re in
     body ^ " big=" ^ bigs big
   | ["S"; pver; ebs; net; hx] ->
-    let pver = n_of_string pver and ebs = n_of_string ebs and net = n_of_string net in
+    let pver = n_of_string pver and ebs = ebs_of ebs and net = n_of_string net in
     let stream = bytes_of_hex (String.concat "" (split_on ';' hx)) in
     let total = llen stream in
     String.concat ";" (Stdlib.List.map (fun r -> Printf.sprintf "%s@%d" (verdict r) (total - llen (WireFrame.frame_rest r)))
@@ -260,9 +264,14 @@ let spec (input : string) (obs : string) : string =
   else if obs = "MISSING" then "FAIL no-observable"
   else
     match split_on ' ' input with
-    | ["L"; pver; _; cmd] ->
-      (* every well-formed message must fit the implementation's own MaxPayloadLength of its type *)
+    | ["L"; pver; ebs; cmd] ->
+      (* the overall limit in force is the declared function of the configured value (the last SetLimits
+         argument), whatever was configured before; and every well-formed message must fit the
+         implementation's own MaxPayloadLength of its type *)
       (match split_on ' ' obs with
+       | [_; mmp] when mmp <> dec_of_n (WireMsg.max_message_payload (ebs_of ebs)) ->
+         Printf.sprintf "FAIL limit-not-the-configured-one maxMessagePayload() is %s after SetLimits(%s); declared: %s" mmp ebs
+           (dec_of_n (WireMsg.max_message_payload (ebs_of ebs)))
        | [limit; _] ->
          (match WireSpec.max_wf_payload_len (kind_of_string cmd) (n_of_string pver) with
           | Some n when Z.lt (Z.of_string limit) (Z.of_string (dec_of_n n)) ->
@@ -271,7 +280,7 @@ let spec (input : string) (obs : string) : string =
        | _ -> "FAIL malformed-observable")
     | ["P"; pver; ebs; ms] | ["F"; pver; ebs; _; ms] | ["C"; pver; ebs; _; ms] ->
       let framed = input.[0] = 'F' || input.[0] = 'C' in
-      let pver = n_of_string pver and ebs = n_of_string ebs in
+      let pver = n_of_string pver and ebs = ebs_of ebs in
       let mmp = WireMsg.max_message_payload ebs in
       let m0 = parse_msg ms in
       (* an IPv4 address may be held in Go's 4-byte form: the message it denotes is the one with the
@@ -305,17 +314,21 @@ let spec (input : string) (obs : string) : string =
       let payload = bytes_of_hex (match tl with [h] -> h | _ -> "") in
       let k = kind_of_string cmd in
       if field "big" obs = Some "1" then "FAIL alloc-beyond-limit-" ^ cmd ^ " decode allocated more than 32 MiB + 4 x MaxPayloadLength"
+      else if WireSpec.string_over_limit k (n_of_string pver) (WireMsg.max_message_payload (ebs_of ebs)) payload && not (starts_with "E:strtoolong" obs) then
+        "FAIL string-above-limit-not-refused-" ^ cmd ^ " a string count above the configured overall limit was not refused before allocation: " ^ obs
       else if WireSpec.count_over_limit k payload && not (starts_with "E:" obs) then
         "FAIL count-above-limit-accepted-" ^ cmd
       else if starts_with "OK " obs && WireSpec.canonical_kind (n_of_string pver) k && field "re" obs <> Some "same" then
         "FAIL reencode-mismatch-" ^ cmd ^ " re-encoding the decoded message does not reproduce the accepted bytes"
       else "OK"
     | "R" :: pver :: ebs :: net :: tl ->
-      let pver = n_of_string pver and ebs = n_of_string ebs and net = n_of_string net in
+      let pver = n_of_string pver and ebs = ebs_of ebs and net = n_of_string net in
       let stream = bytes_of_hex (match tl with [h] -> h | _ -> "") in
       let cmd = match WireSpec.known_cmd (firstn 12 (match stream with _ :: _ :: _ :: _ :: r -> r | _ -> [])) with
         | Some k -> cmd_string k | None -> "unknown" in
       if field "big" obs = Some "1" then "FAIL alloc-beyond-limit-" ^ cmd ^ " ReadMessage allocated more than 32 MiB + 4 x the declared limit"
+      else if WireSpec.header_oversize ebs stream && not (starts_with "E:oversize pos=24 " obs) then
+        "FAIL oversize-not-refused-on-header-" ^ cmd ^ " a length above the configured overall limit must be refused on the header alone: " ^ obs
       else if starts_with "OK " obs && WireSpec.must_reject pver net ebs stream then
         "FAIL bad-frame-accepted-" ^ cmd ^ " wrong magic / unknown command / oversize length / bad checksum was not rejected"
       else if llen stream < 24 && not (starts_with "E:" obs) then "FAIL short-header-accepted"
@@ -324,7 +337,7 @@ let spec (input : string) (obs : string) : string =
       (* every fully framed frame (header, length <= global maximum, that many payload bytes) must get the
          verdict it gets alone and leave the reader exactly behind it, whatever that verdict is; a stream
          that consists of such frames only produces nothing else *)
-      let pver = n_of_string pver and ebs = n_of_string ebs and net = n_of_string net in
+      let pver = n_of_string pver and ebs = ebs_of ebs and net = n_of_string net in
       let stream = bytes_of_hex (String.concat "" (split_on ';' hx)) in
       let frames = WireSpec.split_frames (nat_of_int 16) ebs stream in
       let res = Stdlib.List.filter (fun w -> w <> "") (split_on ';' obs) in
